@@ -24,6 +24,7 @@ D2 = {"n": 21, "tag": 142}
 K, K2, K3 = "k-main", "k-oneshot", "k-linked"
 
 ACTIONS = ["W1", "W2", "W3", "WH", "WBAD", "WBADI", "WMULTI", "WOTHER", "WHDEC", "W0", "WOVF", "WOVFK", "R", "RH", "ST", "STPART", "M", "L", "E", "CP", "CPU", "HL", "HLDHL", "RM", "RMH", "RF", "CL", "LK", "LKDEL", "DFLIP", "DTRUNC", "DUTF8", "DTORN", "DSHORT", "DBADSRI", "DDIR"]
+DAMAGE = {"DFLIP", "DTRUNC", "DUTF8", "DTORN", "DSHORT", "DBADSRI", "DDIR"}
 MIXED = ["W1", "W2", "WH", "R", "M", "L", "RM", "RF", "DUTF8", "ST", "W3", "W0"]
 
 
@@ -302,6 +303,8 @@ def lockstep_worker(ctx, job):
         seen[hk] = len(prog)
         if len(prog) < depth:
             for a in ACTIONS:
+                if len(prog) + 1 == depth and a in DAMAGE:
+                    continue   # a damage step as the LAST step of a program is applied identically to the three caches by the driver and observed by nothing
                 stack.append((prog + [a], new_snaps))
     for c in caches:
         fsutil.wipe(c)
